@@ -31,7 +31,17 @@ def cases(rng, tier, shard, nshards):
         canonical = rng.random() < 0.6
         d = G.gen_doc(rng, version=version, canonical=canonical)
         lines = d.lines()
-        if rng.random() < 0.5:
+        both = False
+        if version == "gfa1" and rng.random() < 0.35:
+            # documented normalisation: a link supplied in both complement forms is stored once
+            for l in list(lines):
+                f = l.split("\t")
+                if f[0] == "L" and rng.random() < 0.6:
+                    c = S.link_complement_pos(f[1:6])
+                    if c != f[1:6]:
+                        lines.append("\t".join(["L"] + c + f[6:]))
+                        both = True
+        if rng.random() < 0.5 or both:
             rng.shuffle(lines)
         # all configurations for a document, so that distinct documents x configurations
         # are both explored
@@ -116,8 +126,10 @@ def run(case, ctx):
             bad = [l for l in wl if m in l][0]
             ctx.violation("marker/%s/v%d" % (m.strip("# ?"), case["vlevel"]), "written line: %r" % bad)
             return
-    want = S.canon_doc(lines, version)
-    got = S.canon_doc(wl, version)
+    want = _once(S.canon_doc(lines, version))
+    got = _once(S.canon_doc(wl, version))
+    if len(want) != len(S.canon_doc(lines, version)):
+        ctx.count("documents_with_both_complement_forms")
     if want != got:
         missing = [x for x in want if x not in got]
         extra = [x for x in got if x not in want]
@@ -167,6 +179,16 @@ def run(case, ctx):
             # canonical spelling must come back textually (tag order included: reported
             # separately, informational only — C01 promises the tag *set*)
             ctx.count("canonical_respelled")
+
+
+def _once(canon):
+    """a link and its complement have one canonical form: it counts once."""
+    out = []
+    for x in canon:
+        if x[0] == "L" and x in out:
+            continue
+        out.append(x)
+    return out
 
 
 def _entry_class(case):
